@@ -15,14 +15,19 @@
 EXTENDS Naturals, FiniteSets
 Present(v) == v # "-"
 \* the set of values that may legitimately be the resolved one
+\* pini: a --pika:ini entry inside PIKA_COMMANDLINE_OPTIONS.  For the settings that have no specific option
+\* (stack sizes, plain ini keys) `pre` itself is such an entry.  A --pika:ini entry on the command line
+\* overrides the corresponding --pika:ini entry of PIKA_COMMANDLINE_OPTIONS (same kind of option, the command
+\* line wins); against a *specific* option inside PIKA_COMMANDLINE_OPTIONS the property gives no order.
+PreIsIni(c) == c.setting \in {"stack", "inikey"}
 Winners(c) ==
     IF Present(c.cmd) THEN {c.cmd}
-    ELSE IF Present(c.ini) THEN (IF Present(c.pre) THEN {c.ini, c.pre} ELSE {c.ini})
-    ELSE IF Present(c.env) \/ Present(c.pre) THEN {c.env, c.pre} \ {"-"}
+    ELSE IF Present(c.ini) THEN (IF Present(c.pre) /\ ~PreIsIni(c) THEN {c.ini, c.pre} ELSE {c.ini})
+    ELSE IF Present(c.env) \/ Present(c.pre) \/ Present(c.pini) THEN {c.env, c.pre, c.pini} \ {"-"}
     ELSE {"D"}
 \* "K" is a keyword value (--pika:threads=cores) that denotes the same as the built-in default
 Canon(S) == {IF v = "K" THEN "D" ELSE v : v \in S}
-AnyInvalid(c) == "X" \in {c.env, c.pre, c.ini, c.cmd}
+AnyInvalid(c) == "X" \in {c.env, c.pre, c.pini, c.ini, c.cmd}
 AcceptD(c, out, Deviations) ==
     \/ /\ ~out.error /\ out.value \in Canon(Winners(c) \ {"X"})          \* a legitimate valid winner is in use
     \/ /\ out.error /\ ("X" \in Winners(c) \/ AnyInvalid(c))              \* an invalid value stopped start-up
